@@ -118,6 +118,7 @@ pub fn gen_load(a: &Args, out: &mut Out, run0: u64, nruns: u64) {
 pub fn gen_reset(a: &Args, out: &mut Out, run0: u64, nruns: u64) {
     let mut rng = rng_for(a, 0x8888 ^ run0);
     let prog = assemble_src(crate::scen::PROG_ECHO);
+    let mut inits_left = 12u32;
     for k in 0..nruns {
         let init = if k % 2 == 0 { MachineInitStrategy::Known { value: rng.random() } } else { MachineInitStrategy::Seeded { seed: rng.random_range(0..1_000_000u64) } };
         let flags = SimFlags { strict: chance(&mut rng, 20), use_real_traps: chance(&mut rng, 50), machine_init: init,
@@ -144,7 +145,8 @@ pub fn gen_reset(a: &Args, out: &mut Out, run0: u64, nruns: u64) {
             for _ in 0..rng.random_range(0..40) { let r = m.step(out, false, false); if r == "panic" { break; } }
             if chance(&mut rng, 30) { m.set_mcr(out, true); }
             // the strategy itself is a flag: a reset after a change builds the machine of the new strategy
-            if k % 2 == 0 && chance(&mut rng, 35) { let q = rng.random_range(1..=4usize); m.set_init(out, q); }
+            // (at most 12 per trace: the reset that follows logs a diff of 52 000 words)
+            if k % 2 == 0 && chance(&mut rng, 35) { let q = rng.random_range(1..=4usize); if inits_left > 0 { inits_left -= 1; m.set_init(out, q); } }
             m.reset(out);
             // probe the kept configuration after reset
             m.read_mem(out, 0xFE40, MemAccessCtx::omnipotent());
